@@ -109,7 +109,7 @@ def parse(items, i=0, stop=()):
         if m:
             body.append(Node("assign", name=m.group(1), value=m.group(2)))
             continue
-        if re.match(r"^(for|while|until|case|function)\b", ln) or ln.endswith("{") or "|" in ln.replace("||", "") or "&&" in ln or "||" in ln:
+        if re.match(r"^(for|while|until|case|function)\b", ln) or ln.endswith("{") or "&&" in ln.replace("2>&1", "") or "||" in ln or "&" in ln.replace("2>&1", "").replace("&&", ""):
             raise ShUnsupported(f"construct outside subset: {ln}")
         body.append(Node("cmd", text=ln))
     return body, i
@@ -540,9 +540,20 @@ class Engine:
         return self.simple(p, st.text)
 
     def simple(self, p, t):
+        t = re.sub(r"\s+2>&1", "", t)
+        t = re.sub(r"\s+[12]?>\s*/dev/null", "", t).strip()
+        if " | " in t and not t.startswith("echo"):
+            return self.pipeline(p, [c.strip() for c in t.split(" | ")])
         w = t.split()
         if t in ("set -e",):
             p.errexit = True
+            return [p]
+        if t == "set -o pipefail":
+            p.vars["__pipefail"] = ("1",)
+            return [p]
+        if t in ("set -eo pipefail", "set -euo pipefail"):
+            p.errexit = True
+            p.vars["__pipefail"] = ("1",)
             return [p]
         if t == "set -x":
             return [p]
@@ -605,6 +616,41 @@ class Engine:
         if fn is None:
             raise ShUnsupported(f"unknown command {t!r}")
         return fn(p, w, t)
+
+    def pipeline(self, p, cmds):
+        """a | b | c : every command runs; the status is the last command's (or, with pipefail,
+        the rightmost non-zero one); set -e only looks at that status."""
+        saved = p.errexit
+        paths = [p]
+        for i, c in enumerate(cmds):
+            last = i == len(cmds) - 1
+            nxt = []
+            for q in paths:
+                q.errexit = False
+                before = len(q.log)
+                for r in self.simple(q, c):
+                    failed = len(r.log) > before and r.log[-1][2] == "fail"
+                    if not last:
+                        if failed:
+                            r.vars["__pipe_failed"] = ("1",)
+                            r.vars["__pipe_status"] = r.log[-1][4]
+                    else:
+                        r.errexit = saved
+                        pf = r.vars.get("__pipefail") and r.vars.get("__pipe_failed")
+                        status_fail = failed or bool(pf)
+                        if status_fail and saved and r.exit is None:
+                            r.exit = r.log[-1][4] if failed else r.vars.get("__pipe_status")
+                        r.vars.pop("__pipe_failed", None)
+                        r.vars.pop("__pipe_status", None)
+                    nxt.append(r)
+            paths = nxt
+        for r in paths:
+            r.errexit = saved
+        return paths
+
+    def tool_tee(self, p, w, t):
+        tgt = self.abspath(p, self.expand(p, w[-1]))
+        return self.tool_fork(p, "tee", t, lambda q: q.fs.append((tgt, True, False, ("text", "tee"))))
 
     # ---- tool contracts (documented behaviour of each external command)
     def tool_cmake(self, p, w, t):
